@@ -68,6 +68,12 @@ def gen_programs(rep, tier, families=None):
                 q["spelling"] = {"*": {"long": True}}
                 q["id"] = "%s~long@%s" % (tag, optsig(p["opts"]))
                 out.append(q)
+            # an orthogonal attribute (@tag) in front of the attribute that matters must not switch the latter off
+            if tag.startswith(("fix:", "meta:shared", "len:", "ck:u16")) and "notype" not in tag and optsig(p["opts"]) == "le=,sp=,ap=,pl=,pc=":
+                q = dict(p)
+                q["spelling"] = {"*": {"tag": "first", "prefixattr": True}} if tag.startswith(("len:", "ck:")) else {"*": {"tag": "first"}}
+                q["id"] = "%s~tagfirst@%s" % (tag, optsig(p["opts"]))
+                out.append(q)
             if tag.startswith(("len:", "ck:")) and "notype" not in tag and (tier == "thorough" or optsig(p["opts"]) == "le=,sp=,ap=,pl=,pc="):
                 for suffix, spell in (("long", {"*": {"long": True}}), ("prefix", {"*": {"prefixattr": True}})):
                     q = dict(p)
